@@ -40,6 +40,8 @@ def baseline(recipe) -> dict:
         except Exception:
             pass
     env = dict(os.environ)
+    # a fresh interpreter has its own string-hash seed: derive one from the recipe (deterministic, never the parent's 0)
+    env["PYTHONHASHSEED"] = str(1 + int(key[:6], 16) % 4000)
     env["PYTHONPATH"] = f"{repo}/src:{os.path.dirname(os.path.dirname(os.path.abspath(__file__)))}:" + env.get("PYTHONPATH", "")
     p = subprocess.run([sys.executable, "-c", CODE], input=json.dumps(recipe), capture_output=True, text=True, env=env, timeout=300)
     lines = [ln for ln in p.stdout.splitlines() if ln.startswith("{")]
